@@ -1,6 +1,7 @@
 package main
 
 import (
+	"verif/harness/regul"
 	"verif/harness/seats"
 	"verif/harness/sim"
 )
@@ -11,7 +12,16 @@ func regS(id, title string, quick int64) {
 		Assume: []string{"math/rand is seeded per run (go1.23: rand.Seed effective) and one run executes at a time per process", "GetPlayableSeats is only called once a dealer exists (it dereferences the dealer)", "player identities are unique per join attempt"}}
 }
 
+func regR(id, title string, quick int64) {
+	props[id] = &propSpec{World: func() sim.World { return regul.World{} }, WorldName: "R", QuickRuns: quick, Title: title,
+		Rule: "one case = one simulated tournament history (settings max/min, registration batches before and after the start, syncs with eliminations in drawn order, delayed and late release deliveries, stale and unknown table ids, late registrations, repeated status changes) followed by sweeps to a fixpoint; non-trivial = at least one table was opened AND at least one elimination was synced; distinct = distinct (operation, outcome, status, live tables, release in flight) transitions observed in non-trivial runs",
+		Assume: []string{"tables follow the regulator's instructions (release exactly the number asked, seat exactly the players handed out)", "a table never eliminates its last player", "the two callbacks never return an error"}}
+}
+
 func registerOther() {
+	regR("C09", "balancing never loses, duplicates or miscounts a player", 20000)
+	regR("C19", "no table over capacity", 20000)
+	regR("C20", "rebalancing settles", 20000)
 	regS("C08", "dealer and blinds land on the right seats", 30000)
 	regS("C17", "the button moves correctly", 30000)
 	regS("C18", "no double booking, no crash", 12000)
